@@ -15,9 +15,19 @@
   whenever the forwarded payload still fits a frame (`C06_forward_intact`).
 -/
 import MM.Lemmas.C06
+import MM.Gen.C06
 
 namespace MM.C06
 open MM MM.C05
+
+/-- The limits of the model are the ones in the source (regenerated on every run by
+    tools/c06_extract.go, which also checks the shape of `advertiseBudget`, of the `splitRoutes`
+    test and that both senders go through `splitRoutes`). -/
+theorem C06_constants_tie :
+    Gen.C06.maxRoutesPerAdvertise = 255 ∧ Gen.C06.advertiseHeadroom = headroom ∧
+    Gen.C06.budgetIsPayloadMinusHeadroomMinusFixed = true ∧
+    Gen.C06.splitClosesGroupOnCountOrSize = true ∧ Gen.C06.announceAndFullTableSplit = true := by
+  decide
 
 /-- **Full statement for one route list** (origination and replay): every frame is delivered and
     decodes, and the neighbour is handed exactly the originated entries, in order — for ANY number
